@@ -110,6 +110,7 @@ def run(ctx, rep):
                  sample={'rules': sc['rules'], 'registered': sc['registered'], 'first_query': sc['queries'][0], 'outcomes': outs[:4]})
     first = scenario.run_all(rep, scs, 'enforce', check)
     _exc_args(ctx, rep)
+    _authorize_same(ctx, rep)
     # debug logging on: same outcomes, nothing but creds['system'] may change
     h = _Null()
     logging.disable(logging.NOTSET)
@@ -156,6 +157,29 @@ def _exc_args(ctx, rep):
             if not r:
                 rep.fail('excargs:allow:' + fname, 'allowed request returned falsy under do_raise (%s)' % fname, {})
             rep.case(key='excargs%s%r%r' % (fname, args, kw), nontrivial=True)
+
+
+def _authorize_same(ctx, rep):
+    """authorize behaves identically to enforce for registered names: same target, same credentials, same arguments."""
+    enf = impl.Enf()
+    rules = {'own': 'user_id:%(user_id)s', 'lit': "'v':%(k)s", 'mix': "role:r0 and project_id:%(project_id)s", 'neg': "not 'v':%(k)s"}
+    enf.set_rules(rules)
+    for n in rules:
+        enf.e.register_default(policy.RuleDefault(n, rules[n]))
+    targets = [{'user_id': 'u1', 'k': 'v', 'project_id': 'p1'}, {'user_id': 'u2', 'k': 'w', 'project_id': 'p2'}, {}]
+    credss = [{'user_id': 'u1', 'roles': ['r0'], 'project_id': 'p1', 'k': 'w'}, {'user_id': 'u2', 'roles': [], 'project_id': 'p2', 'k': 'v'}]
+    for n in rules:
+        for t in targets:
+            for c in credss:
+                for dr in (False, True):
+                    a = impl.outcome(lambda: enf.e.authorize(n, dict(t), dict(c), do_raise=dr))
+                    b = impl.outcome(lambda: enf.e.enforce(n, dict(t), dict(c), do_raise=dr))
+                    if a != b:
+                        rep.fail('authsame:%s|%r|%r|%s' % (n, sorted(t), c.get('user_id'), dr),
+                                 'authorize(%s, target=%r, creds=%r, do_raise=%s) gives %s, enforce gives %s (rule %r)'
+                                 % (n, t, c, dr, a, b, rules[n]), {'rule': n, 'target': t, 'creds': c, 'do_raise': dr})
+                    rep.case(key='authsame%s%r%r%s' % (n, sorted(t.items()), c['user_id'], dr), nontrivial=True)
+    rep.stat('authorize_vs_enforce', len(rules) * len(targets) * len(credss) * 2)
 
 
 def _mutation(ctx, rep):
